@@ -9,8 +9,8 @@ EXTENDS FimStore, Json, IOUtils, TLCExt
 Batch == JsonDeserialize(IOEnv.TRACE_FILE)
 Traces == Batch.traces
 
-VARIABLES tid, l, cur, bad
-vars == <<tid, l, cur, bad>>
+VARIABLES tid, l, cur, obs, bad
+vars == <<tid, l, cur, obs, bad>>
 
 \* JSON projection -> abstract store (the clipboard is carried by the specification, it is not observable)
 AbsStore(js, doc) ==
@@ -40,32 +40,41 @@ ImplInv(js, S) ==
     ELSE IF ~EdgesAnchored(S) THEN "DanglingEdge"
     ELSE ""
 
-Verdict(exp, line, got) ==
+Verdict(exp, line, js, got) ==
     IF Deviation(Traces[tid].backend, cur, line.op, line.out, got) # ""
         THEN "deviation:" \o Deviation(Traces[tid].backend, cur, line.op, line.out, got)
     ELSE IF line.out # exp.out THEN "outcome: expected " \o exp.out \o " got " \o line.out
-    ELSE IF ~ResOK(exp.res, line.res) THEN "result"
+    ELSE IF ~ResOK(exp.res, line.res) THEN
+        (IF /\ line.op.op = "SecondNbr" /\ line.res.k = "list" /\ exp.res.k = "pairs"
+            /\ {<<x[1], x[2]>> : x \in ToSet(line.res.v)} =
+                   SecondNbrAsImplemented(cur, line.op.g, line.op.n, line.op.r1, line.op.c1, line.op.r2, line.op.c2)
+         THEN "deviation:SecondHopRelationIgnored" ELSE "result")
     ELSE IF got.n # exp.st.n THEN "state.nodes"
     ELSE IF got.e # exp.st.e THEN "state.edges"
     ELSE IF ~FrameOK(cur, line.op, got) THEN "frame"
-    ELSE ImplInv(line.state, got)
+    ELSE ImplInv(js, got)
 
 Init == /\ tid \in 1..Len(Traces)
         /\ l = 1
         /\ cur = AbsStore(Traces[tid].init, NoDoc)
+        /\ obs = Traces[tid].init
         /\ bad = 0
 
 Next == /\ l <= Len(Traces[tid].steps)
         /\ LET line == Traces[tid].steps[l]
                exp  == ApplyOn(Traces[tid].backend, cur, line.op)
-               got  == AbsStore(line.state, exp.st.doc)
-               v    == Verdict(exp, line, got)
+               \* the recorder sets "same" when the projection is identical to the previous line's (trace compression)
+               js   == IF line.same THEN obs ELSE line.state
+               got  == IF line.same /\ l > 1 /\ bad = 0 THEN [cur EXCEPT !.doc = exp.st.doc]
+                       ELSE AbsStore(js, exp.st.doc)
+               v    == Verdict(exp, line, js, got)
            IN  /\ IF v # "" THEN PrintT(ToJson([verdict |-> "REJECT", tid |-> Traces[tid].tid, line |-> l, clause |-> v])) ELSE TRUE
                /\ cur' = IF v = "" THEN exp.st ELSE got
+               /\ obs' = js
                /\ bad' = IF v = "" THEN bad ELSE bad + 1
                \* a store that holds two nodes with one (graph id, node id) is not representable: judge no further
-               /\ l' = IF line.state.dup # <<>> THEN Len(Traces[tid].steps) + 1 ELSE l + 1
-               /\ IF l = Len(Traces[tid].steps) \/ line.state.dup # <<>>
+               /\ l' = IF js.dup # <<>> THEN Len(Traces[tid].steps) + 1 ELSE l + 1
+               /\ IF l = Len(Traces[tid].steps) \/ js.dup # <<>>
                     THEN PrintT(ToJson([verdict |-> "DONE", tid |-> Traces[tid].tid, lines |-> l, bad |-> bad']))
                     ELSE TRUE
         /\ UNCHANGED tid
